@@ -500,6 +500,11 @@ pub mod proofs {
     pub fn c08_q_recv_in_send_full() {
         nest_concrete(5, true, 2);
     }
+    #[kani::proof]
+    #[kani::unwind(10)]
+    pub fn c08_q_send_in_recv_full() {
+        nest_concrete(5, false, 1);
+    }
 
     /// Channel::new() is an empty, well-formed channel.
     #[kani::proof]
